@@ -18,8 +18,9 @@ RULE = ("Hypothesis generates 'flat' definitions: abstract root + one concrete c
         "character sets, fixed binaries, calibrated numerics, time types) and packets synthesised from it with field "
         "values at the extremes of each encoding (min / max, +-0, subnormals, NaN, strings and byte strings with "
         "leading and trailing NULs and spaces, non-ASCII text), written to 1..3 files with interleaved APIDs; "
-        "create_dataset is called with use_raw_values False and True. Plus polymorphic streams (same APID, different "
-        "field sets) for the rejection clause. Oracle (metamorphic against the library's own parse, as the statement "
+        "create_dataset is called with use_raw_values False and True and with the file list given as list, tuple, "
+        "one-shot generator, Path objects or a single path. Plus polymorphic streams (same APID, different field sets) "
+        "for the rejection clause, and the same field set in a different order (which is NOT polymorphic). Oracle (metamorphic against the library's own parse, as the statement "
         "compares cells with 'the corresponding parsed value'): expected[apid][name] = [v or v.raw_value for the "
         "packets of that APID, files in the order given]; dataset keys == APIDs present, variables == field names, "
         "row count, each cell equal to the expected element (int(cell) == int(v); floats bit-equal or both NaN after "
@@ -60,9 +61,8 @@ def cell_problem(cell, v):
         return None if ok else ("cell-bool", f"cell {cell!r} for boolean {v!r}")
     if isinstance(v, int):
         try:
-            ok = not isinstance(cell, (str, bytes)) and int(cell) == int(v) and float(cell) == float(cell)
-            if isinstance(cell, float) and abs(int(v)) > 2 ** 53:
-                ok = False
+            # exact comparison (Python compares int and float exactly): a float cell is fine iff it holds the integer
+            ok = not isinstance(cell, (str, bytes)) and float(cell) == float(cell) and cell == int(v)
         except Exception:
             ok = False
         return None if ok else ("cell-int", f"cell {cell!r} ({type(cell).__name__}) for integer {int(v)!r}")
@@ -116,7 +116,7 @@ def check_case(ctx, case):
                 ctx.cls("library parse raised (skipped, C01's subject)")
                 return None
             napid = len(rows)
-            fieldsets = {a: {tuple(k for k, _ in r) for r in rs} for a, rs in rows.items()}
+            fieldsets = {a: {frozenset(k for k, _ in r) for r in rs} for a, rs in rows.items()}   # sets, not orders
             poly = any(len(fs) > 1 for fs in fieldsets.values())
             kinds = {type(v).__mro__[-2].__name__ for rs in rows.values() for r in rs for _, v in r}
             nonint = bool(kinds - {"int"})
@@ -134,7 +134,11 @@ def check_case(ctx, case):
             try:
                 with warnings.catch_warnings():
                     warnings.simplefilter("ignore")
-                    ds = xarr.create_dataset(files, defn, use_raw_values=raw)
+                    how = case.get("files_as", "list")
+                    arg = {"list": list(files), "tuple": tuple(files), "generator": (f for f in files),
+                           "paths": [__import__("pathlib").Path(f) for f in files],
+                           "single": files[0] if len(files) == 1 else list(files)}[how]
+                    ds = xarr.create_dataset(arg, defn, use_raw_values=raw)
             except ValueError as e:
                 if poly:
                     ctx.cls("polymorphic -> ValueError")
@@ -162,9 +166,9 @@ def check_case(ctx, case):
                         return ctx.fail("rows", f"{what} APID {apid} {name}: {len(col)} rows for {len(rs)} packets",
                                         dict(case, only_mode=raw))
                     for i, r in enumerate(rs):
-                        p = cell_problem(col[i], r[j][1])
+                        v = dict(r)[name]   # by name: packets of one APID may order the same fields differently
+                        p = cell_problem(col[i], v)
                         if p:
-                            v = r[j][1]
                             return ctx.fail(p[0], f"{what} APID {apid} row {i} variable {name} (dtype {col.dtype}): {p[1]}",
                                             dict(case, only_mode=raw, cell={"kind": p[0], "got": repr(col[i].item() if hasattr(col[i], 'item') else col[i]),
                                                                             "want": repr(v)}),
@@ -200,7 +204,7 @@ def gen_poly_doc(draw):
     types = [it(n, w) for n, w in zip(pk.HEADER_NAMES, pk.HEADER_WIDTHS)] + [it("A", 8), it("B", 16), it("C", 8)]
     params = [{"name": n, "type": n + "_T", "short": None, "long": None} for n in names + ["A", "B", "C"]]
     apid = draw(st.integers(0, 2047))
-    second = draw(st.sampled_from([["A", "C"], ["B"], ["C", "A"], ["A", "B"]]))
+    second = draw(st.sampled_from([["A", "C"], ["B"], ["C", "A"], ["A", "B"], ["B", "A"], ["B", "A"]]))
     conts = [{"name": "CCSDSPacket", "entries": [["p", n] for n in names], "base": None, "match": None, "abstract": True,
               "short": None, "long": None}]
     for i, fields in enumerate((["A", "B"], second)):
@@ -221,6 +225,7 @@ def gen_case(draw, poly=False):
     nfiles = draw(st.integers(1, 3))
     files = [draw(st.integers(0, nfiles - 1)) for _ in range(n)]
     return {"doc": doc, "packets": packets, "nfiles": nfiles, "files": files,
+            "files_as": draw(st.sampled_from(["list", "list", "tuple", "generator", "paths", "single"])),
             "route": draw(st.sampled_from(["xml", "xml", "built"])), "opts": draw(c01.gen_opts())}
 
 
